@@ -244,7 +244,14 @@ theorem index_lookups_compare_whole_hash :
     choice, of every rule of GetBlockFlags and its call, of the retarget timespan expression and of the two base-weight
     expressions of BuildTxListExt, re-read from the source on every run, are the ones the model was written for; and
     GetNextWorkRequired walks `targetInterval - 1` parents back. In a shape every bare identifier is `_` (locals are not
-    told apart), constants are folded, `<= c` is `< c+1`, operands / members are sorted. An edit that compares another
+    told apart), constants are folded, `<= c` is `< c+1`, operands / members are sorted; facts that are SETS are
+    written in a canonical order after the generator has checked on the source that they are sets (robustness pass 2):
+    a run of adjacent GetBlockFlags rules `if c { flags |= K }` whose conditions do not read `flags` is sorted by rule
+    text (rule 1, which ASSIGNS, keeps its place); the two stores `bl.Height = …` / `bl.MedianPastTime = …` are listed
+    by field name as long as neither reads the object it writes; `if c {A} else {B}` and `if !c {B} else {A}` are one
+    shape; the base-weight expressions are read through unexported single-return helpers and with conversions to
+    integer types of 32 bits or more dropped (every intermediate value is below 2^9; a conversion to an 8- or 16-bit
+    type stays visible). An edit that compares another
     quantity, flips an operator or polarity, adds or drops a conjunct, drops the `return`, moves a guard under another
     condition, searches the commitment forwards, cuts the commitment compare, swaps the cut-off branches or the
     arguments of GetBlockFlags, computes the timespan in 32 bits, measures a constant instead of the counter or walks
@@ -280,15 +287,15 @@ theorem guard_shapes :
       ("post/commitment-search", "for _ = (len(_.Txs[0].TxOut) - 1); _ > -1; _--"),
       ("post/locktime-cutoff", "if (_.VerifyFlags & 1024) != 0 { _ = _.MedianPastTime } else { _ = _.BlockTime() }"),
       ("flags/rule-1", "$2 == 0 || $2 > 1333238399 => _ = 1"),
-      ("flags/rule-2", "$1 >= _.Consensus.BIP66Height => _ |= 4"),
-      ("flags/rule-3", "$1 >= _.Consensus.BIP65Height => _ |= 512"),
+      ("flags/rule-2", "$1 >= _.Consensus.BIP65Height => _ |= 512"),
+      ("flags/rule-3", "$1 >= _.Consensus.BIP66Height => _ |= 4"),
       ("flags/rule-4", "$1 >= _.Consensus.Enforce_CSV && _.Consensus.Enforce_CSV != 0 => _ |= 1024"),
       ("flags/rule-5", "$1 >= _.Consensus.Enforce_SEGWIT && _.Consensus.Enforce_SEGWIT != 0 => _ |= 2064"),
       ("flags/rule-6", "$1 >= _.Consensus.Enforce_Taproot && _.Consensus.Enforce_Taproot != 0 => _ |= 131072"),
       ("flags/apply", "_.VerifyFlags = _.GetBlockFlags(_.Height, _.BlockTime())"),
       ("gnwr/timespan", "(int64(_.Timestamp()) - int64(_.Timestamp()))"),
-      ("build/base-weight-1", "((uint(VLenSize(uint64(_.TxCount))) + 80) * 4)"),
-      ("build/base-weight-2", "((uint64(VLenSize(uint64(_.TxCount))) + 80) * 4)"),
+      ("build/base-weight-1", "((VLenSize(uint64(_.TxCount)) + 80) * 4)"),
+      ("build/base-weight-2", "((VLenSize(uint64(_.TxCount)) + 80) * 4)"),
       ("client-reset/data.go#1", "_.Block.BlockWeight, _.TotalInputs = 0, 0; _.Block.Raw = _; _.Block.TxCount, _.Block.TxOffset = 0, 0; _.Block.Txs = nil"),
       ("client-reset/cblk.go#1", "_.Block.BlockWeight, _.TotalInputs = 0, 0; _.Block.Txs = nil; _.Block.UpdateContent(_.Header)"),
       ("client-reset/cblk.go#2", "_.Block.BlockWeight, _.TotalInputs = 0, 0; _.Block.Txs = nil; _.Block.UpdateContent(_.Header)")] ∧
